@@ -1,5 +1,5 @@
 """Unit registry: which assembled Verus files exist and which properties each carries."""
-from units import expr, builder, smallslices, tables, dfa, bindings, elim
+from units import expr, builder, smallslices, tables, dfa, bindings, elim, regexp
 
 REGISTRY = {
     'expr':     lambda repo, sd, canary=False: expr.build(repo, sd, canary=canary),
@@ -11,15 +11,16 @@ REGISTRY = {
     'dfa':      lambda repo, sd, canary=False: dfa.build(repo, sd, kf=False, canary=canary),
     'dfa_kf':   lambda repo, sd, canary=False: dfa.build(repo, sd, kf=True, canary=canary),
     'elim':     lambda repo, sd, canary=False: elim.build(repo, sd, canary=canary),
+    'regexp':   lambda repo, sd, canary=False: regexp.build(repo, sd, canary=canary),
     'trie':     lambda repo, sd, canary=False: dfa.build_trie(repo, sd, canary=canary),
     'wasm':     lambda repo, sd, canary=False: bindings.build_wasm(repo, sd, canary=canary),
     'cli':      lambda repo, sd, canary=False: bindings.build_cli(repo, sd, canary=canary),
 }
 # units whose obligations carry a property (an obligation counts for a property only if its clause is tagged with it)
 PROP_UNITS = {
-    'C01': ['expr', 'elim', 'misc', 'dfa', 'dfa_kf', 'trie'], 'C02': ['expr', 'elim', 'dfa'], 'C03': ['classify', 'misc', 'trie'], 'C04': ['misc'],
-    'C07': ['expr', 'elim', 'builder', 'misc', 'dfa', 'trie', 'cli', 'escape', 'classify'], 'C08': ['misc', 'expr'], 'C09': ['tables', 'classify'],
-    'C10': ['builder', 'misc'], 'C11': ['escape', 'builder'], 'C12': ['cli'], 'C13': ['misc', 'builder'], 'C16': ['expr', 'elim', 'dfa', 'dfa_kf', 'trie'], 'C17': ['wasm'],
+    'C01': ['expr', 'elim', 'regexp', 'misc', 'dfa', 'dfa_kf', 'trie'], 'C02': ['expr', 'elim', 'regexp', 'dfa'], 'C03': ['classify', 'misc', 'trie'], 'C04': ['misc', 'regexp'],
+    'C07': ['expr', 'elim', 'regexp', 'builder', 'misc', 'dfa', 'trie', 'cli', 'escape', 'classify'], 'C08': ['misc', 'expr', 'regexp'], 'C09': ['tables', 'classify'],
+    'C10': ['builder', 'misc', 'regexp'], 'C11': ['escape', 'builder'], 'C12': ['cli'], 'C13': ['misc', 'builder'], 'C16': ['expr', 'elim', 'regexp', 'dfa', 'dfa_kf', 'trie'], 'C17': ['wasm'],
 }
 # dfa_kf holds exactly the known-finding clause (its canary would be redundant with dfa's); tables has no function with a context
 NO_CANARY = {'dfa_kf', 'tables'}
